@@ -1,0 +1,49 @@
+//! Verification hooks for the class writer (feature `verif`). Forwarding wrappers only.
+
+use std::collections::HashSet;
+use anyhow::Result;
+use crate::tree::method::code::Label;
+use super::labels::Labels;
+
+/// What the writer recorded about a label it could not resolve yet: `(opcode_pos, label_write_pos, wide)`.
+pub type Reserved = (u16, usize, bool);
+
+fn reserved(unwritten: &[super::UnwrittenLabel]) -> Option<Reserved> {
+	unwritten.first().map(|u| (u.opcode_pos, u.label_write_pos, u.wide))
+}
+fn setup(resolved: Option<u16>, label: &Label, make_wide: bool, instruction_index: usize) -> (Labels, HashSet<usize>) {
+	let mut labels = Labels::new();
+	if let Some(target) = resolved {
+		labels.add_opcode_pos_label(*label, target);
+	}
+	let mut wide = HashSet::new();
+	if make_wide {
+		wide.insert(instruction_index);
+	}
+	(labels, wide)
+}
+
+pub fn compute_signed_offset(opcode_pos: u16, target: u16) -> i32 { super::compute_signed_offset(opcode_pos, target) }
+
+/// Calls `if_helper` on `w`, with `label` resolved to `resolved` (or unknown) and the instruction marked wide or not.
+#[allow(clippy::too_many_arguments)]
+pub fn if_helper(w: &mut Vec<u8>, resolved: Option<u16>, make_wide: bool, opcode_pos: u16, instruction_index: usize, label: &Label, opcode: u8, opposite_opcode: u8) -> Result<Option<Reserved>> {
+	let (labels, wide) = setup(resolved, label, make_wide, instruction_index);
+	let mut unwritten = Vec::new();
+	super::if_helper(w, &labels, &wide, &mut unwritten, opcode_pos, instruction_index, label, opcode, opposite_opcode)?;
+	Ok(reserved(&unwritten))
+}
+#[allow(clippy::too_many_arguments)]
+pub fn goto_helper(w: &mut Vec<u8>, resolved: Option<u16>, make_wide: bool, opcode_pos: u16, instruction_index: usize, label: &Label, opcode: u8, wide_opcode: u8) -> Result<Option<Reserved>> {
+	let (labels, wide) = setup(resolved, label, make_wide, instruction_index);
+	let mut unwritten = Vec::new();
+	super::goto_helper(w, &labels, &wide, &mut unwritten, opcode_pos, instruction_index, label, opcode, wide_opcode)?;
+	Ok(reserved(&unwritten))
+}
+pub fn switch_helper(w: &mut Vec<u8>, resolved: Option<u16>, opcode_pos: u16, instruction_index: usize, label: &Label) -> Result<Option<Reserved>> {
+	let (labels, _) = setup(resolved, label, false, instruction_index);
+	let mut unwritten = Vec::new();
+	super::switch_helper(w, &labels, &mut unwritten, opcode_pos, instruction_index, label)?;
+	Ok(reserved(&unwritten))
+}
+pub fn align_to_4_byte_boundary(w: &mut Vec<u8>) -> Result<()> { super::align_to_4_byte_boundary(w) }
